@@ -302,24 +302,31 @@ func fixedScenarios(u *universe) []scenario {
 	// F6/F7 of the design round (fixed in the tree): shifted answers must not be returned
 	out = append(out, scenario{name: "F7-shift10", peers: 2, chunk: 4, from: u.truth[3], to: 12,
 		plan: uniform(2, nil, beh{kind: "shift", d: 10}), expect: "ctx"})
-	// known finding 1: from at the largest height
+	// from at the largest height: every to is degenerate (fixed by f61b090: before, to >= 1 waited for the context)
 	top := &vhdr.Header{Chain: "a", H: ^uint64(0), T: farPast}
-	for _, to := range []uint64{0, 5} {
+	for _, to := range []uint64{0, 1, 5, ^uint64(0)} {
 		out = append(out, scenario{name: fmt.Sprintf("from-maxheight-to%d", to), peers: 2, chunk: 4, from: top, to: to,
-			plan: uniform(2, nil, hon)})
+			plan: uniform(2, nil, hon), expect: "rangemixup"})
 	}
-	// known finding 2: ranges longer than any slice (only far above the limit: just above it the
+	// outside the property (the caller's own absurd range): longer than any slice, the call panics.
+	// Kept only to tie the model's capacity limit to the code; far above the limit (just above it the
 	// runtime tries to allocate for real)
-	for _, to := range []uint64{^uint64(0), 1 << 63, 7 + 1 + 1<<52} {
+	for _, to := range []uint64{^uint64(0)} {
 		for _, chunk := range []uint64{1, 8} {
 			out = append(out, scenario{name: fmt.Sprintf("huge-to%d-chunk%d", to, chunk), peers: 1, chunk: chunk, from: f, to: to,
 				plan: uniform(1, nil, hon)})
 		}
 	}
-	// known finding 3: two sub-requests, each answered from the fork that diverges at its own origin:
-	// the second chunk links to the true chain, not to the first chunk that was returned
+	// two sub-requests, each answered from the fork that diverges at its own origin: the second chunk links
+	// to the true chain, not to the first chunk (fixed by 30b80c8: before, the unlinked range was returned)
 	out = append(out, scenario{name: "unlinked-chunk-boundary", peers: 2, chunk: 3, from: u.truth[5], to: 5 + 1 + 6,
-		plan: uniform(2, nil, beh{kind: "forkfrom"}), expect: "ok"})
+		plan: uniform(2, nil, beh{kind: "forkfrom"}), expect: "other"})
+	// the same with three chunks, and with an honest first chunk followed by a fork chunk
+	out = append(out, scenario{name: "unlinked-chunk-boundary-3", peers: 3, chunk: 2, from: u.truth[5], to: 5 + 1 + 6,
+		plan: uniform(3, nil, beh{kind: "forkfrom"}), expect: "other"})
+	mixed := uniform(2, nil, hon)
+	mixed.deflt[1] = beh{kind: "forkfrom"}
+	out = append(out, scenario{name: "true-then-fork-chunk", peers: 2, chunk: 3, from: u.truth[5], to: 5 + 1 + 6, plan: mixed})
 	// every single behaviour on the first attempt of every peer, one honest peer as fallback
 	for _, k := range append(append([]string{}, byzantine...), benign...) {
 		for _, chunk := range []uint64{1, 3} {
